@@ -3,6 +3,7 @@ package dyn
 import (
 	"math"
 	"runtime"
+	"time"
 	"unsafe"
 
 	"pipelined.dev/signal"
@@ -91,6 +92,16 @@ func typeProbes[T signal.SignalTypes](name string) func(ch, length int) []Probe 
 			}},
 			{Name: "pool-cycle-putting-a-shorter-slice-from-frame-0[" + name + "]", MaxPerRun: 1, Run: func() {
 				g := poolL.Get()
+				poolL.Put(g.Slice(0, length/2))
+			}},
+			{Name: "pool-cycle-filling-the-buffer-and-putting-a-shorter-slice-from-frame-0[" + name + "]", MaxPerRun: 1, Run: func() {
+				g := poolL.Get()
+				for i := 0; i < g.Len(); i++ {
+					g.SetSample(i, T(1+i%3))
+				}
+				for i := g.Len(); i < g.Cap(); i++ {
+					g.AppendSample(T(1 + i%3))
+				}
 				poolL.Put(g.Slice(0, length/2))
 			}},
 			{Name: "pool-cycle-through-copies-of-an-allocator-value[" + name + "]", Run: func() {
@@ -288,4 +299,31 @@ func extremeValues[S signal.SignalTypes]() []S {
 	hi := top + (top - 1)
 	lo := -hi - 1
 	return []S{hi, hi - 1, lo, lo + 1, 0, one, zero - 1, top, -top, hi / 3, lo / 3}
+}
+
+// idleCycle measures the heap allocations of ONE pool get/put cycle that
+// starts `pause` after the previous put (minimum over reps repetitions). The
+// caller runs with GOMAXPROCS(1) and the collector off, so the buffer parked
+// by the previous put is still in the pool of the only P.
+func idleCycle[T signal.SignalTypes](pause time.Duration, reps int) uint64 {
+	pool := signal.PoolAlloc[T](signal.Allocator{Channels: 2, Length: 8, Capacity: 16})
+	for i := 0; i < 3; i++ {
+		g := pool.Get()
+		g.AppendSample(1)
+		pool.Put(g)
+	}
+	best := ^uint64(0)
+	var m1, m2 runtime.MemStats
+	for r := 0; r < reps && best != 0; r++ {
+		time.Sleep(pause)
+		runtime.ReadMemStats(&m1)
+		g := pool.Get()
+		g.AppendSample(1)
+		pool.Put(g)
+		runtime.ReadMemStats(&m2)
+		if d := m2.Mallocs - m1.Mallocs; d < best {
+			best = d
+		}
+	}
+	return best
 }
